@@ -105,6 +105,45 @@ func (p *memProvider) Set(r record.Record) (record.Record, error) {
 	return r, nil
 }
 
+// roProvider is a read-only value provider (like runtime.ProvideRecord): the
+// provider itself places records, Set refuses.
+type roProvider struct{ memProvider }
+
+func (p *roProvider) Set(r record.Record) (record.Record, error) { return nil, runtime.ErrReadOnly }
+
+func (p *memProvider) place(r record.Record) {
+	p.mu.Lock()
+	p.recs[r.DatabaseKey()] = r
+	p.mu.Unlock()
+}
+
+// vetoHook is a PrePut hook that rejects writes to the keys it is told to protect
+// (the way a validation hook of an internal module rejects a write).
+type vetoHook struct {
+	database.HookBase
+	mu   sync.Mutex
+	keys map[string]bool
+}
+
+var errVeto = errors.New("write rejected by the harness PrePut hook")
+
+func (h *vetoHook) UsesPrePut() bool { return true }
+
+func (h *vetoHook) PrePut(r record.Record) (record.Record, error) {
+	h.mu.Lock()
+	defer h.mu.Unlock()
+	if h.keys[r.Key()] {
+		return nil, errVeto
+	}
+	return r, nil
+}
+
+func (h *vetoHook) set(key string, on bool) {
+	h.mu.Lock()
+	h.keys[key] = on
+	h.mu.Unlock()
+}
+
 func (p *memProvider) live(dbKey string) record.Record {
 	p.mu.Lock()
 	defer p.mu.Unlock()
@@ -125,6 +164,9 @@ type world struct {
 	reg *runtime.Registry
 	prv *memProvider
 	psh runtime.PushFunc
+	ro    *roProvider // failmod part, runtime only
+	roPsh runtime.PushFunc
+	veto  *vetoHook // failmod part
 
 	toks     map[string]*version
 	nextCell int
@@ -157,6 +199,12 @@ func newWorld(dir string, sp spec, b *vlib.Batch) (*world, error) {
 			return nil, err
 		}
 		w.psh = push
+		if sp.Part == "failmod" {
+			w.ro = &roProvider{memProvider{recs: map[string]record.Record{}}}
+			if w.roPsh, err = w.reg.Register("ro/", w.ro); err != nil {
+				return nil, err
+			}
+		}
 	} else {
 		if _, err := database.Register(&database.Database{Name: w.db, Description: "C03 " + sp.Backend, StorageType: sp.Backend, ShadowDelete: sp.Shadow}); err != nil {
 			return nil, err
@@ -172,7 +220,26 @@ func newWorld(dir string, sp spec, b *vlib.Batch) (*world, error) {
 	if _, err := w.A.Get(w.db + ":c/none"); err != nil && !errors.Is(err, database.ErrNotFound) {
 		return nil, fmt.Errorf("database %s does not start: %w", w.db, err)
 	}
+	if sp.Part == "failmod" {
+		w.veto = &vetoHook{keys: map[string]bool{}}
+		if _, err := database.RegisterHook(query.New(w.db+":c/").MustBeValid(), w.veto); err != nil {
+			return nil, err
+		}
+	}
 	return w, nil
+}
+
+// liveRec returns the stored object of an injected-database record and the push
+// function of its provider.
+func (w *world) liveRec(key string) (record.Record, runtime.PushFunc) {
+	_, dbKey := record.ParseKey(key)
+	if w.ro != nil && strings.HasPrefix(dbKey, "ro/") {
+		return w.ro.live(dbKey), w.roPsh
+	}
+	if w.prv != nil {
+		return w.prv.live(dbKey), w.psh
+	}
+	return nil, nil
 }
 
 func (w *world) close() {
@@ -206,6 +273,23 @@ func newRec(key, tok, kind string) record.Record {
 func (w *world) privPut(key string, flags int, how, kind string) (tok string, err error) {
 	tok = w.newTok(key, flags, "priv")
 	r := newRec(key, tok, kind)
+	if _, dbKey := record.ParseKey(key); w.ro != nil && strings.HasPrefix(dbKey, "ro/") {
+		// records of the read-only provider are placed by the provider itself,
+		// which then announces them
+		r.CreateMeta()
+		if flags&flagSecret != 0 {
+			r.Meta().MakeSecret()
+		}
+		if flags&flagCrown != 0 {
+			r.Meta().MakeCrownJewel()
+		}
+		r.UpdateMeta()
+		w.ro.place(r)
+		r.Lock()
+		w.roPsh(r)
+		r.Unlock()
+		return tok, nil
+	}
 	switch how {
 	case "opts":
 		err = w.Wf[flags].Put(r)
